@@ -1,7 +1,7 @@
 /-
   NsOps.lean — the name server operations (Pyro5/nameserver.py:271-432, memory back-end) as
   `Lock.Op`s: each body is its list of storage accesses, all executed while holding
-  `NameServer.lock` (that premise is the extracted lock shape, obligation C15_gen_shape_ok).
+  `NameServer.lock` (that premise is the extracted lock shape, theorem C15_source_every_access_locked).
 
   State: association list name ↦ (uri, tags), newest last (dict order).  Names, URIs and tags are
   code-point lists / opaque numbers: concurrency does not look inside them.
